@@ -20,7 +20,14 @@ const CAP: usize = 4;
 const CANARY: u8 = 0xAA;
 
 fn read_handler_step<const C: usize, const TOTAL: usize>() {
-	let state = Box::into_raw(Box::new(ReadState { reader: AnyReader { lied: false, failed: false }, bouncer: vec![], error: None }));
+	// arbitrary pre-state: the bounce buffer is whatever an earlier call left behind (any length up to
+	// TOTAL, i.e. possibly LARGER than the buffer libyaml offers now), and an earlier error may be stashed
+	let mut bouncer = Vec::with_capacity(TOTAL);
+	let pre: usize = kani::any();
+	kani::assume(pre <= TOTAL);
+	let mut i = 0; while i < pre { bouncer.push(0x55u8); i += 1; }
+	let error = if kani::any() { Some(io::Error::from(io::ErrorKind::Other)) } else { None };
+	let state = Box::into_raw(Box::new(ReadState { reader: AnyReader { lied: false, failed: false }, bouncer, error }));
 	// libyaml's buffer is the first `cap` bytes of `dest`; the bytes behind it are a canary (any write
 	// beyond buffer_size is an out-of-bounds write in the real parser)
 	let mut dest = [CANARY; TOTAL];
@@ -43,6 +50,7 @@ fn read_handler_step<const C: usize, const TOTAL: usize>() {
 		let mut j = size_read as usize;
 		while j < cap as usize { assert!(dest[j] == CANARY, "bytes beyond size_read untouched"); j += 1; }
 		kani::cover!(size_read == cap && cap > 0);
+		kani::cover!(pre > cap as usize, "bounce buffer was larger than the buffer offered now");
 		kani::cover!(size_read == 0 && cap > 0, "EOF");
 	} else {
 		assert!(rc == 0);
